@@ -1,4 +1,5 @@
 import LP.Model.FSet
+import LP.Model.VInterval
 import LP.Driver.Scalar
 namespace LP.Driver
 open LP LP.VI
@@ -151,5 +152,63 @@ def checkFSet (op : String) (args res : List String) : Verdict :=
        | some q => if memSet a (.fin q) then .ok "pick/rational" else .viol "fset-pick" s!"picked {v} not in {showFSet a}"
        | none => .ok "pick/irrational")
   | _, _, _ => .skip s!"unknown fset op {op}"
+
+end LP.Driver
+
+namespace LP.Driver
+open LP LP.VI
+
+/-- sample points of a value interval (finite rationals) -/
+def viSamples (I : VI) : List Rat :=
+  let inside (x : Rat) : Bool := I.contains (.fin x)
+  let base : List Rat := match I.a, I.b with
+    | .fin a, .fin b => [a, b, (a + b) / 2, a + (b - a) / 1024, b - (b - a) / 1024, a + (b - a) / 3]
+    | .ninf, .fin b => [b, b - 1, b - 1000, b - 1 / 1024, b - 12345678]
+    | .fin a, .pinf => [a, a + 1, a + 1000, a + 1 / 1024, a + 12345678]
+    | _, _ => [0, 1, -1, 1000, -1000, 1 / 3]
+  ((0 : Rat) :: base).filter inside
+
+def viTag (I : VI) : String :=
+  if I.isPoint then "pt" else (if I.a = .ninf then "-oo" else if I.aOpen then "o" else "c") ++ (if I.b = .pinf then "+oo" else if I.bOpen then "o" else "c")
+
+def checkVI (op : String) (args res : List String) : Verdict :=
+  match args with
+  | dest :: rest =>
+    let judge (tag cls : String) (got want : VI) (lost : Option String) : Verdict :=
+      if !viWf got then .viol cls s!"ill-formed result {showVI got}"
+      else if viEq got want then .ok tag
+      else match lost with
+        | some w => .viol cls s!"lost point {w}: got {showVI got} model {showVI want}"
+        | none => .disagree s!"got {showVI got} model {showVI want}"
+    match op, rest, res with
+    | "add", [x, y], [r] =>
+      (match pVI? x, pVI? y, pVI? r with
+       | some x, some y, some r =>
+         (match VI.add x y with
+          | some want =>
+            let lost := ((viSamples x).flatMap (fun u => (viSamples y).filterMap (fun v =>
+              if r.contains (.fin (u + v)) then none else some s!"{showRat u}+{showRat v}"))).head?
+            judge s!"add/{dest}/{viTag x}/{viTag y}" "vi-add" r want lost
+          | none => .skip "undefined sum")
+       | _, _, _ => .skip "bad")
+    | "mul", [x, y], [r] =>
+      (match pVI? x, pVI? y, pVI? r with
+       | some x, some y, some r =>
+         let lost := ((viSamples x).flatMap (fun u => (viSamples y).filterMap (fun v =>
+           if r.contains (.fin (u * v)) then none else some s!"{showRat u}*{showRat v}"))).head?
+         judge s!"mul/{dest}/{viTag x}/{viTag y}" "vi-mul" r (VI.mul x y) lost
+       | _, _, _ => .skip "bad")
+    | "pow", [x, n], [r] =>
+      (match pVI? x, pNat? n, pVI? r with
+       | some x, some n, some r =>
+         let lost := ((viSamples x).filterMap (fun u => if r.contains (.fin (u ^ n)) then none else some s!"{showRat u}^{n}")).head?
+         judge s!"pow/{dest}/{viTag x}/{if n = 0 then "0" else if n % 2 = 1 then "odd" else "even"}/s{VI.sgn x}" "vi-pow" r (VI.pow x n) lost
+       | _, _, _ => .skip "bad")
+    | "sgn", [x], [r] =>
+      (match pVI? x with
+       | some x => expectEq s!"sgn/{viTag x}" "vi-sgn" r (toString (VI.sgn x))
+       | none => .skip "bad")
+    | _, _, _ => .skip s!"unknown vi op {op}"
+  | _ => .skip "short vi line"
 
 end LP.Driver
